@@ -56,11 +56,33 @@ class VolOracle:
 
 
 def _rotational(seq, adjacent, closed):
-    """seq is a walk in which consecutive elements are adjacent (and last-first if closed)"""
+    """seq is a walk in which consecutive elements are adjacent (and last-first if closed).  When the elements around the edge
+    form several fans (cells touching along the edge only), rotational order is defined inside each fan: every fan must then be
+    one contiguous run of the sequence, itself such a walk"""
     seq = list(seq)
     n = len(seq)
     if n <= 1:
         return True
+    comp = {x: x for x in seq}
+
+    def find(x):
+        while comp[x] != x:
+            x = comp[x]
+        return x
+    for i in range(n):
+        for j in range(i + 1, n):
+            if adjacent(seq[i], seq[j]):
+                comp[find(seq[i])] = find(seq[j])
+    if len(set(find(x) for x in seq)) > 1:
+        runs = [[seq[0]]]
+        for x in seq[1:]:
+            if find(x) == find(runs[-1][-1]):
+                runs[-1].append(x)
+            else:
+                runs.append([x])
+        if len(runs) != len(set(find(x) for x in seq)):
+            return False            # a fan is split into several runs
+        return all(_rotational(r, adjacent, False) for r in runs)
     for i in range(n - 1):
         if not adjacent(seq[i], seq[i + 1]):
             return False
@@ -149,8 +171,15 @@ def check_border(sx, mesh, O, tag):
 
 
 def _closed_surface(faces):
-    he = oracle.half_edges(faces)
-    return he is not None and all((b, a) in he for (a, b) in he)
+    """closed and consistently oriented: every directed side is matched by as many opposite ones (the boundary of a volume
+    pinched along an edge runs through that edge twice: it is closed without being an edge-manifold surface)"""
+    cnt = {}
+    for F in faces:
+        n = len(F)
+        for i in range(n):
+            k = (F[i], F[(i + 1) % n])
+            cnt[k] = cnt.get(k, 0) + 1
+    return all(cnt.get((b, a), 0) == c for (a, b), c in cnt.items())
 
 
 def check_boundary_mesh(sx, mesh, O, tag, coords=None):
